@@ -27,7 +27,7 @@ def known_match(known, pid, label, detail=""):
     for k in known:
         if k.get("property") != pid or k.get("status") != "known":
             continue
-        if label == k.get("label") or label.startswith(k.get("label", "\0") + "."):
+        if label == k.get("label") or label.startswith(k.get("label", "\0") + ".") or label.startswith(k.get("label", "\0") + ":"):
             m = k.get("match")
             if m and m not in detail:
                 continue
